@@ -25,6 +25,7 @@ MS = "broker::store::MetaStore"
 ERR = "broker::store::MetaStoreError"
 
 MUTANTS = [
+    {"name": "partner-host-only-a-tiebreak", "edits": [{"file": "src/broker/update.rs", "old": "        let link_count_table = link_table\n            .get(&failed_proxy_host)\n            .expect(\"consume_new_proxy: cannot find failed proxy\");\n        let select_host = |excluded_host: Option<&String>| {\n            link_count_table\n                .iter()\n                .filter(|(peer_host, _)| free_host_proxies.contains_key(*peer_host))\n                .filter(|(peer_host, _)| Some(*peer_host) != excluded_host)\n                .min_by(|(host1, count1), (host2, count2)| {\n                    Self::second_host_cmp(\n                        host1.as_str(),\n                        **count1,\n                        host2.as_str(),\n                        **count2,\n                        &free_host_proxies,\n                    )\n                })\n                .map(|(peer_host, _)| peer_host)\n        };\n        let peer_host = select_host(partner_host.as_ref())\n            .or_else(|| select_host(None))\n            .ok_or(MetaStoreError::NoAvailableResource)?;\n\n        let peer_proxy = MetaStoreQuery::new(self.store)\n", "new": "        let link_count_table = link_table\n            .get(&failed_proxy_host)\n            .expect(\"consume_new_proxy: cannot find failed proxy\");\n        // Select the host in a single pass:\n        // least linked first, then the one with most free proxies,\n        // and keep away from the partner host as long as another host is as good.\n        let is_partner = |host: &String| Some(host) == partner_host.as_ref();\n        let peer_host = link_count_table\n            .iter()\n            .filter(|(peer_host, _)| free_host_proxies.contains_key(*peer_host))\n            .min_by(|(host1, count1), (host2, count2)| {\n                Self::second_host_cmp(\n                    host1.as_str(),\n                    **count1,\n                    host2.as_str(),\n                    **count2,\n                    &free_host_proxies,\n                )\n                .then_with(|| is_partner(host1).cmp(&is_partner(host2)))\n            })\n            .map(|(peer_host, _)| peer_host)\n            .ok_or(MetaStoreError::NoAvailableResource)?;\n\n        let peer_proxy = MetaStoreQuery::new(self.store)\n"}], "expect": "C12.D3:partner-hard-excluded"},
     {"name": "add_proxy-overwrites-record", "file": "src/broker/update.rs", "old": "        self.store\n            .all_proxies\n            .entry(proxy_address.clone())\n            .or_insert_with(|| ProxyResource {", "new": "        self.store\n            .all_proxies\n            .remove(&proxy_address);\n        self.store\n            .all_proxies\n            .entry(proxy_address.clone())\n            .or_insert_with(|| ProxyResource {", "expect": "C12.D1"},
     {"name": "allocate-without-sum-check", "file": "src/broker/update.rs", "old": "        if sum_proxy_num < expected_num.get() {\n            return Err(MetaStoreError::NoAvailableResource);\n        }\n\n        if max_proxy_num * 2 > sum_proxy_num {", "new": "        if max_proxy_num * 2 > sum_proxy_num {", "expect": "C12.D2:allocator"},
     {"name": "second-host-may-equal-first", "file": "src/broker/update.rs", "old": "                        **host != first_host && free_count.is_some() && free_count != Some(0)", "new": "                        free_count.is_some() && free_count != Some(0)", "expect": "C12.D3:two-hosts"},
